@@ -269,3 +269,29 @@ extern "C" void h_map_sectors(void)
   vf_witness("no files");
 #endif
 }
+
+// ---------------------------------------------------------------- C07: a catalogue that cannot be read
+extern "C" void h_catalog_unreadable(void)
+{
+  MemDrive drive;
+  drive.s0 = DFS::SectorBuffer(); drive.s1 = DFS::SectorBuffer();
+  drive.s1[7] = 200;
+#ifndef CAT_READABLE
+#define CAT_READABLE 1
+#endif
+  drive.total = CAT_READABLE;                       // 0, 1 or 2 readable sectors (constant per query): with fewer than 2 there is no catalogue
+  drive.s1[6] = vf_nondet_u8() & 3;
+  bool bad = false, other = false, built = false;
+  try { DFS::Volume vol(CMD_FORMAT, 0, 0, 800, drive); built = true; vf_observe(vol.root().entries().size()); }
+  catch (DFS::BadFileSystem&) { bad = true; }
+  catch (std::exception&) { other = true; }
+  // (an exception that is not a std::exception -- e.g. a thrown POINTER -- escapes and is reported by vf_main)
+  vf_assert(!other, "an unreadable catalogue is reported as BadFileSystem");
+  if (drive.total < CAT_SECTORS) vf_assert(bad && !built, "a volume whose catalogue sectors cannot be read is rejected");
+  vf_observe(bad);
+#if CAT_READABLE < 2
+  if (bad) vf_witness("unreadable catalogue rejected");
+#else
+  if (built) vf_witness("readable catalogue accepted");
+#endif
+}
